@@ -159,14 +159,49 @@ Theorem unscrubbed_extents_are_never_free :
   forall fault d f cs x b,
   d < FreeSpace.U64 -> FreeSpace.initialize d = FreeSpace.FOk f ->
   let st := FailPathProofs.fcalls fault (FailPath.finit f) cs in
-  In x (FailPath.f_maydata st) -> FailPathProofs.blk_in b x -> ~ FreeSpaceProofs.free (FailPath.f_fs st) b.
+  In x (FailPath.f_maydata st) -> FailPathProofs.blk_in b x -> ~ FreeSpaceProofs.free (FailPath.f_fs st) b
+(* the same with deletes of published records and their retirement (journal, markers, clear, one
+   release per group), including the reclaim-and-retry of a pass the allocator refused: Ok only when
+   not poisoned, the queue empty and every pending retirement done; entries are published all or
+   none; the extents waiting for retirement are given back all at once or not at all *).
 Proof. exact FailPathProofs.unscrubbed_extents_are_never_free. Qed.
 Check unscrubbed_extents_are_never_free :
   forall fault d f cs x b,
   d < FreeSpace.U64 -> FreeSpace.initialize d = FreeSpace.FOk f ->
   let st := FailPathProofs.fcalls fault (FailPath.finit f) cs in
-  In x (FailPath.f_maydata st) -> FailPathProofs.blk_in b x -> ~ FreeSpaceProofs.free (FailPath.f_fs st) b.
+  In x (FailPath.f_maydata st) -> FailPathProofs.blk_in b x -> ~ FreeSpaceProofs.free (FailPath.f_fs st) b
+(* the same with deletes of published records and their retirement (journal, markers, clear, one
+   release per group), including the reclaim-and-retry of a pass the allocator refused: Ok only when
+   not poisoned, the queue empty and every pending retirement done; entries are published all or
+   none; the extents waiting for retirement are given back all at once or not at all *).
 Print Assumptions unscrubbed_extents_are_never_free.
+
+Theorem flush_with_deletes_is_honest :
+  forall fault d f cs,
+  d < FreeSpace.U64 -> FreeSpace.initialize d = FreeSpace.FOk f ->
+  let rs := FailPathProofs.rcalls fault (FailPath.rinit f) cs in
+  forall rs' r, FailPath.rflush fault rs = (rs', r) ->
+  (r = FailPath.ROk -> FailPath.f_queue (FailPath.r_core rs') = [] /\ FailPath.r_pending rs' = [] /\ FailPath.f_poison (FailPath.r_core rs') = false) /\
+  ((FailPath.f_queue (FailPath.r_core rs') = [] /\ exists pub, FailPath.f_durable (FailPath.r_core rs') = pub ++ FailPath.f_durable (FailPath.r_core rs) /\
+      map fst pub = map FailPath.pe_id (FailPath.f_queue (FailPath.r_core rs))) \/
+   (FailPath.f_durable (FailPath.r_core rs') = FailPath.f_durable (FailPath.r_core rs) /\
+      map FailPath.pe_id (FailPath.f_queue (FailPath.r_core rs')) = map FailPath.pe_id (FailPath.f_queue (FailPath.r_core rs)))) /\
+  (FailPath.r_pending rs' = FailPath.r_pending rs \/ FailPath.r_pending rs' = []) /\
+  (FailPath.f_poison (FailPath.r_core rs) = true -> FailPath.f_poison (FailPath.r_core rs') = true /\ r <> FailPath.ROk).
+Proof. exact FailPathProofs.flush_with_deletes_is_honest. Qed.
+Check flush_with_deletes_is_honest :
+  forall fault d f cs,
+  d < FreeSpace.U64 -> FreeSpace.initialize d = FreeSpace.FOk f ->
+  let rs := FailPathProofs.rcalls fault (FailPath.rinit f) cs in
+  forall rs' r, FailPath.rflush fault rs = (rs', r) ->
+  (r = FailPath.ROk -> FailPath.f_queue (FailPath.r_core rs') = [] /\ FailPath.r_pending rs' = [] /\ FailPath.f_poison (FailPath.r_core rs') = false) /\
+  ((FailPath.f_queue (FailPath.r_core rs') = [] /\ exists pub, FailPath.f_durable (FailPath.r_core rs') = pub ++ FailPath.f_durable (FailPath.r_core rs) /\
+      map fst pub = map FailPath.pe_id (FailPath.f_queue (FailPath.r_core rs))) \/
+   (FailPath.f_durable (FailPath.r_core rs') = FailPath.f_durable (FailPath.r_core rs) /\
+      map FailPath.pe_id (FailPath.f_queue (FailPath.r_core rs')) = map FailPath.pe_id (FailPath.f_queue (FailPath.r_core rs)))) /\
+  (FailPath.r_pending rs' = FailPath.r_pending rs \/ FailPath.r_pending rs' = []) /\
+  (FailPath.f_poison (FailPath.r_core rs) = true -> FailPath.f_poison (FailPath.r_core rs') = true /\ r <> FailPath.ROk).
+Print Assumptions flush_with_deletes_is_honest.
 (* non-vacuity of the failure-handling theorems: three inserts on a 64-block device; the record
    write fails three times (calls 2, 3, 4: the first pwrite of each attempt), the scrub goes through
    and the second flush publishes everything; with call 5 failing too (the scrub's intent write) the
@@ -181,6 +216,24 @@ Example failed_batch_is_scrubbed_and_retried :
       snd (FailPath.flush (fun _ => false) scrubbed) = FailPath.ROk /\
       FailPath.f_poison poisoned = true /\ FailPath.f_usage poisoned = 6 /\
       snd (FailPath.flush (fun _ => false) poisoned) = FailPath.RIndet
+  | FreeSpace.FErr _ => False
+  end.
+Proof. vm_compute. repeat split. Qed.
+
+(* non-vacuity with deletes: a 19-block device (3 data blocks) is filled, one record is deleted, a
+   two-block record arrives: the pass is refused for space, the retirement gives one block back,
+   the retried pass is refused again (one block is not enough); after a second delete it fits *)
+Example reclaim_and_retry_on_a_full_device :
+  match FreeSpace.initialize 77824 with
+  | FreeSpace.FOk f =>
+      let quiet := fun _ : N => false in
+      let rs1 := FailPathProofs.rcalls quiet (FailPath.rinit f)
+                   [FailPathProofs.RCInsert 1 1; FailPathProofs.RCInsert 2 1; FailPathProofs.RCInsert 3 1; FailPathProofs.RCFlush;
+                    FailPathProofs.RCInsert 4 2; FailPathProofs.RCDelete 1] in
+      let (rs2, r2) := FailPath.rflush quiet rs1 in
+      let (rs3, r3) := FailPath.rflush quiet (FailPath.rdelete rs2 2) in
+      r2 = FailPath.RSpace /\ FailPath.r_pending rs2 = [] /\ FailPath.f_usage (FailPath.r_core rs2) = 2 /\
+      r3 = FailPath.ROk /\ FailPath.f_usage (FailPath.r_core rs3) = 3 /\ length (FailPath.f_durable (FailPath.r_core rs3)) = 2%nat
   | FreeSpace.FErr _ => False
   end.
 Proof. vm_compute. repeat split. Qed.
